@@ -202,11 +202,11 @@ func runC09(c *ev.Ctx) {
 		add("small-2frames", k)
 	}
 	// (1c) three frames sampled
-	for k := 0; k < c.N(16, 256); k++ {
+	for k := 0; k < c.N(16, 2560); k++ {
 		add("small-3frames", k)
 	}
 	// (2) random
-	for k := 0; k < c.N(64, 1024); k++ {
+	for k := 0; k < c.N(64, 10240); k++ {
 		add("random", k)
 	}
 	// (3) blend arithmetic
